@@ -25,6 +25,7 @@ func (g *Gen) storeLoc(h *Heap, l *Loc, v string) {
 		g.errorf("store to package-level variable %s (unsupported)", l.Global.Name())
 		return
 	}
+	g.noteWrite(l.Arr, l.Idx)
 	if l.Pos != "" {
 		es := "(Array Int " + l.Sort + ")"
 		a := g.arr(h, l.Arr, es)
@@ -42,6 +43,7 @@ func (g *Gen) allocRef(st *State, hint string) string {
 	al := g.arr(st.heap, "alloc", "Bool")
 	g.assumeUnder(st.reach, fmt.Sprintf("(and (> %s 0) (not (select %s %s)))", r, al, r))
 	g.assignArr(st.heap, "alloc", "Bool", fmt.Sprintf("(store %s %s true)", al, r))
+	g.markFresh(r)
 	return r
 }
 
@@ -226,6 +228,7 @@ func (f *frame) step(in ssa.Instruction, st *State) bool {
 				hv := g.fresh("hv")
 				g.declare(hv, s)
 				g.assumeUnder(st.reach, g.typeInv(hv, fl.Type()))
+				g.noteWrite(name, l.Idx)
 				a := g.arr(st.heap, name, s)
 				g.assignArr(st.heap, name, s, fmt.Sprintf("(store %s %s %s)", a, l.Idx, hv))
 			}
@@ -323,7 +326,8 @@ func (f *frame) step(in ssa.Instruction, st *State) bool {
 		an := elemArrName(s)
 		a := g.arr(st.heap, an, es)
 		g.assignArr(st.heap, an, es, fmt.Sprintf("(store %s %s ((as const %s) %s))", a, r, es, g.zeroOf(et)))
-		f.setReg(x, fmt.Sprintf("(mk-slice %s 0 %s %s)", r, ln.T, cp.T))
+		rv := f.setReg(x, fmt.Sprintf("(mk-slice %s 0 %s %s)", r, ln.T, cp.T))
+		g.markFresh(rv.T)
 	case *ssa.MakeMap:
 		r := g.allocRef(st, "map")
 		mt := x.Type().Underlying().(*types.Map)
@@ -345,6 +349,9 @@ func (f *frame) step(in ssa.Instruction, st *State) bool {
 		ha := g.arr(st.heap, has, hs)
 		ga := g.arr(st.heap, get, gs)
 		ml := g.arr(st.heap, "G!map!len", "Int")
+		g.noteWrite(has, m.T)
+		g.noteWrite(get, m.T)
+		g.noteWrite("G!map!len", m.T)
 		g.assignArr(st.heap, "G!map!len", "Int", fmt.Sprintf("(store %[1]s %[2]s (ite (select (select %[3]s %[2]s) %[4]s) (select %[1]s %[2]s) (+ (select %[1]s %[2]s) 1)))", ml, m.T, ha, k.T))
 		g.assignArr(st.heap, has, hs, fmt.Sprintf("(store %[1]s %[2]s (store (select %[1]s %[2]s) %[3]s true))", ha, m.T, k.T))
 		g.assignArr(st.heap, get, gs, fmt.Sprintf("(store %[1]s %[2]s (store (select %[1]s %[2]s) %[3]s %[4]s))", ga, m.T, k.T, v.T))
@@ -457,6 +464,7 @@ func (f *frame) step(in ssa.Instruction, st *State) bool {
 
 func (f *frame) chanHavocLen(st *State, ch string) {
 	g := f.g
+	g.noteWrite("G!chan!len", ch)
 	ln := g.arr(st.heap, "G!chan!len", "Int")
 	cp := g.arr(st.heap, "G!chan!cap", "Int")
 	nl := g.fresh("chlen")
@@ -661,7 +669,8 @@ func (f *frame) convert(x *ssa.Convert, st *State) bool {
 		g.assumeUnder(st.reach, fmt.Sprintf("(forall ((k Int)) (! (=> (and (<= 0 k) (< k (slen %[1]s))) (= (select %[2]s k) (sat %[1]s k))) :pattern ((select %[2]s k))))", v.T, na))
 		a := g.arr(st.heap, an, es)
 		g.assignArr(st.heap, an, es, fmt.Sprintf("(store %s %s %s)", a, r, na))
-		f.setReg(x, fmt.Sprintf("(mk-slice %s 0 (slen %s) (slen %s))", r, v.T, v.T))
+		rv := f.setReg(x, fmt.Sprintf("(mk-slice %s 0 (slen %s) (slen %s))", r, v.T, v.T))
+		g.markFresh(rv.T)
 	case from == "Slice" && to == "Str":
 		n := f.regName(x)
 		if g.declared[n] {
@@ -753,7 +762,10 @@ func (f *frame) sliceOp(x *ssa.Slice, st *State) bool {
 			f.safety("slice", st, fmt.Sprintf("(<= %s (s-cap %s))", mx, base.T), x.Pos(), "slice bounds out of range")
 		}
 		f.safety("slice", st, fmt.Sprintf("(and (<= 0 %s) (<= %s %s) (<= %s %s))", lo, lo, hi, hi, mx), x.Pos(), "slice bounds out of range")
-		f.setReg(x, fmt.Sprintf("(mk-slice (s-arr %[1]s) (+ (s-off %[1]s) %[2]s) (- %[3]s %[2]s) (- %[4]s %[2]s))", base.T, lo, hi, mx))
+		rv := f.setReg(x, fmt.Sprintf("(mk-slice (s-arr %[1]s) (+ (s-off %[1]s) %[2]s) (- %[3]s %[2]s) (- %[4]s %[2]s))", base.T, lo, hi, mx))
+		if g.isFresh(base.T) {
+			g.markFresh(rv.T)
+		}
 	case *types.Pointer: // pointer to array
 		at := u.Elem().Underlying().(*types.Array)
 		n := fmt.Sprint(at.Len())
@@ -766,7 +778,10 @@ func (f *frame) sliceOp(x *ssa.Slice, st *State) bool {
 		if l.Arr != elemArrName(sortOf(at.Elem())) {
 			g.errorf("slicing an array that is not a plain allocation (unsupported)")
 		}
-		f.setReg(x, fmt.Sprintf("(mk-slice %[1]s %[2]s (- %[3]s %[2]s) (- %[4]s %[2]s))", l.Idx, lo, hi, n))
+		rv := f.setReg(x, fmt.Sprintf("(mk-slice %[1]s %[2]s (- %[3]s %[2]s) (- %[4]s %[2]s))", l.Idx, lo, hi, n))
+		if g.isFresh(l.Idx) {
+			g.markFresh(rv.T)
+		}
 	default:
 		g.errorf("slice of %s", base.Ty)
 		f.havocReg(x, st)
@@ -867,6 +882,9 @@ func (f *frame) selectOp(x *ssa.Select, st *State) bool {
 	if !x.Blocking {
 		// default is taken only if no case is ready
 		g.assumeUnder(st.reach, fmt.Sprintf("(=> (= %s (- 1)) (not %s))", n+"_i", or(canAny...)))
+	}
+	for _, s := range x.States {
+		g.noteWrite("G!chan!len", f.val(s.Chan).T)
 	}
 	g.assignArr(st.heap, "G!chan!len", "Int", newLen)
 	f.regs[x] = Val{Ty: x.Type(), Tup: tup}
